@@ -38,7 +38,8 @@ class Oracle:
     """The physics of one TLC behaviour. Questions the behaviour never asked (the code left the model) get a
     deterministic default so that the run can still be completed and judged; `extended` counts them."""
 
-    def __init__(self, memo_pairs, lenient=True, ext=None):
+    def __init__(self, memo_pairs, lenient=True, ext=None, formula=None):
+        self.formula = formula          # large domains: (need, lists) - the answer is computed when asked, so that memo holds what WAS asked
         self.memo = {}
         self.lenient = lenient
         self.extended = 0
@@ -71,6 +72,14 @@ class Oracle:
         try:
             return self.memo[(fid, lvl)]
         except KeyError:
+            if self.formula is not None:
+                need, lists = self.formula
+                j, i = fid
+                c = lists[j - 1][i - 1]
+                v = (need - c) * 1e-3 + j * 1e-6 + i * 1e-9          # distinct values, sign decided by the count alone
+                x = {"max": v, "min": v + 60.0, "root": 90000}[lvl]
+                self.memo[(fid, lvl)] = x
+                return x
             if not self.lenient:
                 raise Divergence(f"oracle has no answer for {fid} at {lvl}") from None
             self.extended += 1
@@ -125,6 +134,28 @@ MODE = "1D"
 
 def list_coords(j, i, n):
     return [(float(j * 1000 + i), float(k)) for k in range(n)]
+
+
+class LazyFields:
+    """A candidate list whose coordinate sets are built when asked for (large domains: tens of thousands of candidates)."""
+
+    def __init__(self, j, counts):
+        self.j, self.counts = j, counts
+
+    def __len__(self):
+        return len(self.counts)
+
+    def __iter__(self):
+        return (self[i] for i in range(len(self.counts)))
+
+    def __getitem__(self, i):
+        if isinstance(i, slice):
+            return [self[k] for k in range(*i.indices(len(self.counts)))]
+        if i < 0:
+            i += len(self.counts)
+        if not 0 <= i < len(self.counts):
+            raise IndexError(i)
+        return list_coords(self.j, i + 1, self.counts[i])
 
 
 def rw_coords(a, k, n):
@@ -306,7 +337,7 @@ def run_behaviour(beh: dict, max_iter: int | None = None, ext=None):
 
     MODE = beh["mode"]
     cfg = beh["cfg"]
-    ORA = Oracle(beh["memo"], ext=ext)
+    ORA = Oracle(beh["memo"], ext=ext, formula=(beh["need"], beh["cfg"]["lists"]) if beh.get("lazy") else None)
     REC = Recorder()
     cap = cfg["cap"] or None
     sp = SimulationParameters(1, 12, MAXA, MINA, HMAX, HMIN, max_boreholes=cap, continue_if_design_unmet=cfg["cont"])
@@ -330,7 +361,10 @@ def run_behaviour(beh: dict, max_iter: int | None = None, ext=None):
                 kw["max_iter"] = max_iter
             return sr.Bisection1D(dom, desc, **kw)
         if MODE in ("2D", "ZD"):
-            nested = [[list_coords(j + 1, i + 1, n) for i, n in enumerate(lst)] for j, lst in enumerate(lists)]
+            if beh.get("lazy"):
+                nested = [LazyFields(j + 1, lst) for j, lst in enumerate(lists)]
+            else:
+                nested = [[list_coords(j + 1, i + 1, n) for i, n in enumerate(lst)] for j, lst in enumerate(lists)]
             desc = [[f"d{j}_{i}" for i in range(len(lst))] for j, lst in enumerate(lists)]
             cls = sr.Bisection2D if MODE == "2D" else sr.BisectionZD
             kw = dict(common)
